@@ -9,11 +9,22 @@ Generator : payload built from segments (text incl. multi-byte UTF-8, newlines \
             ($THREAD_SUBPROCS on/off -> Popen vs PopenThread+NonBlockingFDReader path, $XONSH_CAPTURE_ALWAYS);
             and - with the XONSH_XONSH_VERIF guard on - a seeded delay plan for the schedule points inside
             xonsh's reader / proxy / pipeline threads, several plans per case.
+            Second family ("prog", vlib/c06_prog.py; $THREAD_SUBPROCS on, exactly one alias stage per pipeline): the
+            alias stage emits a generated SEQUENCE of segments through different write paths - print() with / without
+            newline, sys.stdout.write, the stdout argument's .write / print(file=stdout) / .buffer.write,
+            sys.stdout.buffer.write, commands run inside the body (bare, ![..], execx, $(..) re-printed, `echo $VAR`,
+            `$[..]`), nested callable aliases, nested ExecAliases, returned str / tuple - as a callable alias compiled
+            from xonsh source or as an ExecAlias (`a && b; c | vcat`), alone / feeding vcat / fed by vemit, with one or
+            two `$VAR='value'` prefixes on any stage, read through $(), !().out, iteration, .raw_out, @$(), `> file`.
 Oracle    : raw_out == payload byte for byte; text views match the decoded payload under one consistent
             newline reading (CR and CRLF -> LF; CRLF only; none), each escape segment present or absent as a
             whole, every text segment intact once and in order, one-line output may lose its final newline;
             .rtn == last stage's exit code; nothing of the payload reaches the shell's own stdout (fd 1 and
             sys.stdout are captured by the harness); stderr markers of the stages are not in the captured value.
+            prog family: every view equals the concatenation of the segments IN PROGRAM ORDER (each segment carries a
+            unique token; missing / doubled / reordered segments are named); what reaches the process' real fd 1 during
+            the capture is exactly the `$[..]` segments (documented bypass) - anything else there is "echoed to the
+            terminal" -, no segment on fd 2 / sys.stderr; `echo $VAR` / print($VAR) show the prefix value.
 """
 
 from __future__ import annotations
@@ -26,6 +37,7 @@ import signal
 import sys
 import tempfile
 
+from vlib import c06_prog as cp
 from vlib import common, helpers
 from vlib.common import Failure, Stats
 
@@ -34,7 +46,11 @@ LEVEL = "exploration"
 HOOKS = True
 RULE = ("payload (segments, boundary-straddling sizes) x writer chunking/delay/linger/exit code x pipeline of 1-3 external/alias stages x "
         "capture kind x $THREAD_SUBPROCS x seeded delay plan at xonsh's schedule points; non-trivial = payload > 1024 bytes or >= 2 stages "
-        "or chunked/delayed writer; distinct = hash of (payload, writer, pipeline, capture kind, config, plan)")
+        "or chunked/delayed writer; distinct = hash of (payload, writer, pipeline, capture kind, config, plan). "
+        "prog family: alias stage (callable from xonsh source | ExecAlias) emitting a sequence of 2-7 segments through "
+        "{print, print(end=''), sys.stdout.write, stdout.write, print(file=stdout), .buffer.write, inner command bare/![]/execx/$()/$[]/echo $VAR, "
+        "nested alias, nested ExecAlias, returned value} x position {alone, | vcat, vemit |, both} x $VAR='v' prefixes x view "
+        "{$(), .out, iteration, .raw_out, @$(), > file}; non-trivial = >= 2 different write paths in the stage; distinct = hash of the case")
 
 HANG_S = 40
 SIZES = [0, 1, 2, 80, 1023, 1024, 1025, 2047, 2048, 2049, 4095, 4096, 4097, 8192, 65535, 65536, 65537, 131072, 131073, 200000]
@@ -63,8 +79,14 @@ def _setup(scratch):
 
     if not xv.ENABLED:
         raise common.HarnessError("schedule-point hooks are not enabled (XONSH_XONSH_VERIF=1 must be set before xonsh is imported)")
-    _state.update(session=session, dir=d, scratch=scratch, xv=xv,
-                  open={e["id"] for e in common.load_known(PROP) if e.get("status") == "open"})
+    known = common.load_known(PROP)
+    _state.update(session=session, dir=d, scratch=scratch, xv=xv, body=None,
+                  open={e["id"] for e in known if e.get("status") == "open"},
+                  fixed={e["id"] for e in known if e.get("status") == "fixed"})
+    # C06-F3 (proposed by the builder of the prog family): until the entry is in known_findings.json the shape is
+    # neither generated nor replayed (a failure could only be reported as a violation of an already analysed defect)
+    _state["f3_mode"] = "open" if "C06-F3" in _state["open"] else "fixed" if "C06-F3" in _state["fixed"] else "absent"
+    _state["f4_mode"] = "open" if "C06-F4" in _state["open"] else "fixed" if "C06-F4" in _state["fixed"] else "absent"
     return _state
 
 
@@ -279,9 +301,111 @@ def gen_case(rnd):
 # execution
 
 
-def run_case(case):
+def _exec_observed(src, plan):
+    """Execute `src` under the delay plan while the process' real fd 1 / fd 2 point to scratch files and the
+    Python-level streams are StringIOs.  -> (exc, bytes on fd 1, bytes on fd 2, sys.stdout text, sys.stderr text)"""
     st = _state
     session, xv, d = st["session"], st["xv"], st["dir"]
+    seed, prob, max_ms = plan
+    xv.set_plan(seed, prob, max_ms)
+    # capture the shell's own terminal: fd 1 / fd 2 and the Python-level streams
+    sys.stdout.flush()
+    sys.stderr.flush()
+    t1 = tempfile.TemporaryFile(dir=d)
+    t2 = tempfile.TemporaryFile(dir=d)
+    save1, save2 = os.dup(1), os.dup(2)
+    os.dup2(t1.fileno(), 1)
+    os.dup2(t2.fileno(), 2)
+    old_out, old_err = sys.stdout, sys.stderr
+    py_out, py_err = io.StringIO(), io.StringIO()
+    sys.stdout, sys.stderr = py_out, py_err
+    exc = None
+    signal.setitimer(signal.ITIMER_REAL, HANG_S, 2.0)
+    try:
+        try:
+            session.xexec(src)
+        except _Timeout:
+            exc = "HANG"
+        except BaseException as e:  # noqa: BLE001
+            exc = "%s: %s" % (type(e).__name__, str(e)[:200])
+    finally:
+        signal.setitimer(signal.ITIMER_REAL, 0)
+        if exc == "HANG":
+            _kill_children()        # unblock the stage threads, or every later case of this worker runs beside them
+        sys.stdout, sys.stderr = old_out, old_err
+        try:
+            # text that xonsh handed to the process' original stream objects (the dispatchers' defaults) is still
+            # on its way to fd 1 / fd 2: let it land in the scratch files, not on the worker's real output
+            old_out.flush()
+            old_err.flush()
+        except (OSError, ValueError):
+            pass
+        os.dup2(save1, 1)
+        os.dup2(save2, 2)
+        os.close(save1)
+        os.close(save2)
+    t1.seek(0)
+    t2.seek(0)
+    term1, term2 = t1.read(), t2.read()
+    t1.close()
+    t2.close()
+    try:
+        err_text = py_err.getvalue()
+    except ValueError:          # xonsh closed the stand-in for sys.stderr (safe_fdclose of an alias' stderr)
+        err_text = ""
+    return exc, term1, term2, py_out.getvalue(), err_text
+
+
+def _kill_children():
+    """SIGKILL every live child process of this worker (stages a failed / deadlocked case left behind).  -> count"""
+    me = os.getpid()
+    n = 0
+    for p in os.listdir("/proc"):
+        if not p.isdigit():
+            continue
+        try:
+            with open("/proc/%s/stat" % p) as f:
+                stat = f.read()
+            rest = stat[stat.rindex(")") + 2:].split()
+            if int(rest[1]) == me and rest[0] != "Z":
+                os.kill(int(p), signal.SIGKILL)
+                n += 1
+        except (OSError, ValueError):
+            pass
+    return n
+
+
+def _cleanup_leftovers(st):
+    """End of a worker: a case that went wrong inside xonsh (deadlock, leaked pipe end) can leave a stage process and
+    the non-daemon thread that waits for it behind; the worker process would then never exit and the run would hang
+    instead of reporting.  Kill such children, give the threads a moment, and as a last resort make the interpreter
+    exit without joining them (everything has been handed to the parent by then)."""
+    import threading
+    import time
+
+    killed = _kill_children()
+    if killed:
+        st.hist["leftover-stage-process-killed-at-worker-end"] += killed
+    deadline = time.time() + 3.0
+    alive = []
+    while time.time() < deadline:
+        alive = [t for t in threading.enumerate() if t is not threading.main_thread() and not t.daemon and t.is_alive()]
+        if not alive:
+            break
+        time.sleep(0.05)
+    if alive:
+        st.hist["leftover-thread-at-worker-end"] += len(alive)
+        st.notes.append("worker ended with %d xonsh thread(s) still alive (%s); exit forced" % (len(alive), ", ".join(type(t).__name__ for t in alive[:5])))
+        reg = getattr(threading, "_register_atexit", None)
+        if reg is not None:
+            sys.stdout.flush()
+            sys.stderr.flush()
+            reg(os._exit, 0)
+
+
+def run_case(case):
+    st = _state
+    session, d = st["session"], st["dir"]
     segs = [[k, bytes.fromhex(h)] for k, h in case["segs"]]
     payload = b"".join(b for _k, b in segs)
     pfile = os.path.join(d, "payload.bin")
@@ -340,41 +464,8 @@ def run_case(case):
         src += {"out": "R = P.out\n", "iter": "R = [l for l in P]\n", "raw": "R = P.raw_out\n", "rtn": "R = P.rtn\n"}[kind]
         src += "RTN = P.rtn\nRAW = P.raw_out\n"
     XSH.ctx.clear()
-    seed, prob, max_ms = case["plan"]
-    xv.set_plan(seed, prob, max_ms)
-    # capture the shell's own terminal: fd 1 / fd 2 and the Python-level streams
-    sys.stdout.flush()
-    sys.stderr.flush()
-    t1 = tempfile.TemporaryFile(dir=d)
-    t2 = tempfile.TemporaryFile(dir=d)
-    save1, save2 = os.dup(1), os.dup(2)
-    os.dup2(t1.fileno(), 1)
-    os.dup2(t2.fileno(), 2)
-    old_out, old_err = sys.stdout, sys.stderr
-    py_out, py_err = io.StringIO(), io.StringIO()
-    sys.stdout, sys.stderr = py_out, py_err
-    exc = None
-    signal.setitimer(signal.ITIMER_REAL, HANG_S, 2.0)
-    try:
-        try:
-            session.xexec(src)
-        except _Timeout:
-            exc = "HANG"
-        except BaseException as e:  # noqa: BLE001
-            exc = "%s: %s" % (type(e).__name__, str(e)[:200])
-    finally:
-        signal.setitimer(signal.ITIMER_REAL, 0)
-        sys.stdout, sys.stderr = old_out, old_err
-        os.dup2(save1, 1)
-        os.dup2(save2, 2)
-        os.close(save1)
-        os.close(save2)
-    t1.seek(0)
-    t2.seek(0)
-    term1, term2 = t1.read(), t2.read()
-    t1.close()
-    t2.close()
-    res = {"exc": exc, "term1": term1, "term2": term2, "py_out": py_out.getvalue(), "R": XSH.ctx.get("R"), "RTN": XSH.ctx.get("RTN"),
+    exc, term1, term2, py_out, _py_err = _exec_observed(src, case["plan"])
+    res = {"exc": exc, "term1": term1, "term2": term2, "py_out": py_out, "R": XSH.ctx.get("R"), "RTN": XSH.ctx.get("RTN"),
            "RAW": XSH.ctx.get("RAW"), "rec": rec, "payload": payload, "segs": segs, "cmd": cmd}
     try:
         P = XSH.ctx.get("P")
@@ -382,6 +473,270 @@ def run_case(case):
     except Exception:  # noqa: BLE001
         res["cls"] = []
     return res
+
+
+# ----------------------------------------------------------------------------------------
+# "prog" family: one alias stage that emits a sequence of segments through different write paths
+
+
+def _body_alias():
+    """The interpreter alias, compiled once per process from xonsh source by the real execer."""
+    st = _state
+    if st.get("body") is None:
+        g = {}
+        st["session"].xexec(cp.BODY_SRC, glbs=g)
+        st["body"] = g
+    return st["body"]
+
+
+def run_prog(case):
+    st = _state
+    session, d = st["session"], st["dir"]
+    XSH = session.load_session(st["scratch"], THREAD_SUBPROCS=True, XONSH_CAPTURE_ALWAYS=bool(case.get("capture_always")),
+                               XONSH_SUBPROC_RAISE_ERROR=False, XONSH_SUBPROC_CMD_RAISE_ERROR=False)
+    XSH.env[cp.TVAR] = cp.TDEFAULT
+    g = _body_alias()
+    pd = os.path.join(d, "prog")
+    os.makedirs(pd, exist_ok=True)
+    prep, cmd, outfile = cp.prepare(case, pd)
+    g["_C06"]["table"] = prep.table
+    XSH.aliases["c06a"] = g["_c06_body"]
+    XSH.aliases["c06i"] = g["_c06_body"]
+    for name, src in prep.aliases.items():
+        XSH.aliases[name] = src
+    atypes = {name: type(XSH.aliases._raw.get(name)).__name__ for name in prep.aliases}
+    if any(t != "ExecAlias" for t in atypes.values()):
+        # a one-command string becomes a plain list alias, whose `$VAR` is expanded at the call site: not generated
+        raise common.HarnessError("alias string did not become an ExecAlias: %r %r" % (atypes, prep.aliases))
+    rec = []
+
+    def recw(args, stdin=None):
+        rec.append(list(args))
+        return 0
+
+    XSH.aliases["recw"] = recw
+    view = case["view"]
+    if view == "dollar":
+        src = "R = $(" + cmd + ")\n"
+    elif view == "atdollar":
+        src = "recw @$(" + cmd + ")\nR = None\n"
+    elif view == "file":
+        src = cmd + "\nR = None\n"
+    else:
+        src = "P = !(" + cmd + ")\n"
+        src += {"out": "R = P.out\n", "iter": "R = [l for l in P]\n", "raw": "R = P.raw_out\n"}[view]
+        src += "RTN = P.rtn\nRAW = P.raw_out\n"
+    XSH.ctx.clear()
+    exc, term1, term2, py_out, py_err = _exec_observed(src, case["plan"])
+    res = {"exc": exc, "term1": term1, "term2": term2, "py_out": py_out, "py_err": py_err, "R": XSH.ctx.get("R"), "RTN": XSH.ctx.get("RTN"),
+           "RAW": XSH.ctx.get("RAW"), "rec": rec, "cmd": cmd, "cls": [], "file": None,
+           "aliases": dict(prep.aliases), "alias_types": atypes}
+    if outfile is not None:
+        try:
+            with open(outfile, "rb") as f:
+                res["file"] = f.read()
+        except OSError as e:
+            res["file"] = None
+            res["file_err"] = str(e)
+    try:
+        P = XSH.ctx.get("P")
+        res["cls"] = [getattr(s.cls, "__name__", str(s.cls)) for s in P.specs] if P is not None else []
+    except Exception:  # noqa: BLE001
+        pass
+    g["_C06"]["table"] = {}
+    return res
+
+
+def _short(x):
+    s = repr(x)
+    return s if len(s) < 200 else s[:90] + "...<%d>..." % len(s) + s[-90:]
+
+
+def _text_matcher(exp, got):
+    """bytes x bytes -> bool under the text-view rules (LF-only payloads: exact, a single line may lose its newline)."""
+    segs = cp.segs_of(exp)
+    if segs is None:
+        return exp == got
+    try:
+        return match_text(segs, got.decode("utf-8")) is None
+    except UnicodeDecodeError:
+        return False
+
+
+def check_prog(case):
+    m = cp.model(case)
+    r = run_prog(case)
+    expected = bytes(m.out)
+    view = case["view"]
+    problems = []            # (kind, text, tolerated by the C06-F3 predicate?)
+
+    def eq(e, g):
+        return e == g
+
+    if r["exc"] == "HANG":
+        problems.append(("deadlock", "capture did not return within %d s" % HANG_S, False))
+    elif r["exc"]:
+        problems.append(("exception", "capture raised %s" % r["exc"], False))
+    else:
+        R = r["R"]
+        got = None
+        if view == "raw":
+            got = R if isinstance(R, bytes) else b""
+            if R != expected:
+                problems.append(("raw-differs", "raw_out has %d bytes, the stage wrote %d; first difference at %s" % (
+                    len(got), len(expected), _first_diff(got, expected)), cp.f3_tolerates(m, got, eq)))
+        elif view == "file":
+            got = r["file"]
+            if got != expected:
+                problems.append(("file-differs", "the redirect target has %s bytes, the stage wrote %d; first difference at %s" % (
+                    "no" if got is None else len(got), len(expected), _first_diff(got or b"", expected)), cp.f3_tolerates(m, got or b"", eq)))
+        elif view == "atdollar":
+            want = expected.decode().split()
+            got = " ".join(r["rec"][0]) if len(r["rec"]) == 1 else None
+            if r["rec"] != [want]:
+                problems.append(("atdollar-differs", "@$() delivered %s, expected %s" % (_short(r["rec"]), _short(want)),
+                                 got is not None and cp.f3_tolerates(m, got, eq, norm=lambda b: b"".join(b.split()))))
+        else:
+            got = "".join(R) if view == "iter" and isinstance(R, list) else R
+            if not isinstance(got, str):
+                problems.append(("type", "captured value is %s" % type(got).__name__, False))
+                got = None
+            else:
+                segs = cp.segs_of(expected)
+                why = match_text(segs, got)
+                if why:
+                    try:
+                        fixed = got.encode("utf-8", "surrogateescape").decode("utf-8")
+                    except UnicodeError:
+                        fixed = None
+                    if fixed is not None and fixed != got and match_text(segs, fixed) is None:
+                        problems.append(("split-char", "%s view: a multi-byte character split between two reads was decoded per chunk: %s" % (view, why), False))
+                        got = None
+                    else:
+                        tol = cp.f3_tolerates(m, got, _text_matcher)
+                        if not tol and fixed is not None and fixed != got and view in ("out", "iter") and "C06-F1" in _state["open"]:
+                            # both recorded defects at once: per-chunk decoding (F1) of a capture that is also reordered (F3)
+                            tol = cp.f3_tolerates(m, fixed, _text_matcher)
+                        problems.append(("text-differs", "%s view is not the concatenation of the stage's segments in program order: %s" % (view, why), tol))
+            if view == "iter" and isinstance(R, list) and any(("\n" in ln[:-1]) for ln in R if ln):
+                problems.append(("iter-lines", "an iterated line contains an interior newline: %s" % _short(R), False))
+        if problems and got is not None and problems[0][0].endswith("-differs"):
+            note = cp.describe(expected, got, m.segments)
+            if note:
+                problems[0] = (problems[0][0], problems[0][1] + " {" + note + "}", problems[0][2])
+        if view in ("out", "iter", "raw"):
+            want_rtn = cp.expected_rtn(case)
+            if r["RTN"] != want_rtn:
+                problems.append(("rtn-differs", "rtn %r, last stage exited with %d" % (r["RTN"], want_rtn), False))
+            if r["RAW"] != expected and view != "raw":
+                raw = r["RAW"] if isinstance(r["RAW"], bytes) else b""
+                problems.append(("raw-differs", "raw_out has %d bytes, the stage wrote %d; first difference at %s" % (
+                    len(raw), len(expected), _first_diff(raw, expected)), cp.f3_tolerates(m, raw, eq)))
+        # the terminal: only the documented `$[...]` bypass may reach the real fd 1; nothing of the stage on fd 2
+        want_term = bytes(m.term)
+        if r["term1"] != want_term or r["py_out"]:
+            problems.append(("echoed", "during the capture the process' own stdout received %s (sys.stdout: %s); only %s was allowed there" % (
+                _short(r["term1"]), _short(r["py_out"]), _short(want_term) if want_term else "nothing"), False))
+        leak2 = cp.TOKEN_RX.findall(r["term2"].decode("utf-8", "replace")) + cp.TOKEN_RX.findall(r["py_err"])
+        if leak2:
+            problems.append(("echoed-stderr", "segments of the stage's stdout appeared on the process' stderr: %s" % " ".join(leak2[:8]), False))
+    if not problems:
+        return None, r
+    k = problems[0][0]
+    detail = "; ".join(p[1] for p in problems) + " [src: %s; aliases %s; classes %s]" % (r["cmd"], r.get("aliases"), r.get("cls"))
+    fid = None
+    if k == "split-char" and view in ("out", "iter") and len(problems) == 1:
+        fid = "C06-F1"
+    elif all(p[2] for p in problems):
+        fid = "C06-F3"
+    elif cp.f4_shape(case) is not None and "Bad file descriptor" in r["py_err"] and len(problems) == 1 and k in ("text-differs", "atdollar-differs"):
+        # C06-F4: the connecting pipe's read end was closed under the alias (PrevProcCloser, 0.1 s after the upstream
+        # stage ended); the alias died at stdin.read(), the capture holds exactly what it had written before
+        pre = cp.f4_prefix(case)
+        if view == "dollar" and isinstance(r["R"], str) and _text_matcher(pre, r["R"].encode("utf-8", "surrogateescape")):
+            fid = "C06-F4"
+        elif view == "atdollar" and r["rec"] == [pre.decode().split()]:
+            fid = "C06-F4"
+    ai = "1" if case["pos"] in ("last", "mid") else "0"
+    bucket = fid or ("prog:" + k + ":" + case["stage"] + (":alias-stage-has-env-prefix" if case.get("envs", {}).get(ai) else ""))
+    return Failure(k, case, detail[:3000], finding=fid, bucket=bucket), r
+
+
+def minimize_prog(case, kind, budget=40):
+    """Greedy reduction of a failing prog case (drop ops, decorations, stages; shorten texts) while the same failure
+    kind reproduces.  Bounded number of executions."""
+    import copy
+
+    used = [0]
+
+    def fails(c):
+        if used[0] >= budget:
+            return False
+        used[0] += 1
+        try:
+            f, _r = check_prog(c)
+        except common.HarnessError:
+            return False
+        return f is not None and f.kind == kind and f.finding is None
+
+    best = case
+    for mut in ("plan", "envs-other", "pos", "capture", "ops", "texts"):
+        if mut == "plan":
+            c = copy.deepcopy(best)
+            c["plan"] = [0, 0.0, 1.0]
+            if fails(c):
+                best = c
+        elif mut == "envs-other":
+            ai = "1" if best["pos"] in ("last", "mid") else "0"
+            c = copy.deepcopy(best)
+            c["envs"] = {k: v for k, v in c.get("envs", {}).items() if k == ai}
+            if c["envs"] != best.get("envs") and fails(c):
+                best = c
+            if best.get("envs"):
+                c = copy.deepcopy(best)
+                c["envs"] = {}
+                if fails(c):
+                    best = c
+        elif mut == "pos" and best["pos"] != "only":
+            c = copy.deepcopy(best)
+            ai = "1" if best["pos"] in ("last", "mid") else "0"
+            c["envs"] = {"0": v for k, v in c.get("envs", {}).items() if k == ai}
+            c["pos"] = "only"
+            c["ops"] = [op for op in c["ops"] if op[0] != "i"]
+            c.pop("tail", None)
+            c.pop("feed", None)
+            if c["ops"] and fails(c):
+                best = c
+        elif mut == "capture" and best.get("capture_always"):
+            c = copy.deepcopy(best)
+            c["capture_always"] = False
+            if fails(c):
+                best = c
+        elif mut == "ops":
+            i = 0
+            while i < len(best["ops"]) and len(best["ops"]) > 1:
+                c = copy.deepcopy(best)
+                del c["ops"][i]
+                if best["stage"] == "xa":
+                    del c["joins"][min(i, len(c["joins"]) - 1)]
+                try:
+                    cp.model(c)
+                except common.HarnessError:
+                    i += 1
+                    continue
+                if fails(c):
+                    best = c
+                else:
+                    i += 1
+        elif mut == "texts":
+            for i, op in enumerate(best["ops"]):
+                if op[0] in "pPswlv" and len(op[1]) > 12:
+                    c = copy.deepcopy(best)
+                    tok = cp.TOKEN_RX.match(op[1])
+                    c["ops"][i][1] = (tok.group(0) if tok else "t") + ("\n" if op[1].endswith("\n") else "")
+                    if fails(c):
+                        best = c
+    return best
 
 
 def classify(case, kind, detail):
@@ -393,6 +748,8 @@ def classify(case, kind, detail):
 
 
 def check_case(case):
+    if case.get("fam") == "prog":
+        return check_prog(case)
     r = run_case(case)
     payload, segs = r["payload"], r["segs"]
     kind = case["kind"]
@@ -469,8 +826,95 @@ def _first_diff(a, b):
     return "offset %d (length)" % n
 
 
+def _confirm(c, f, st):
+    """Only what reproduces is reported: the OS still owns the real interleaving, and the workers share the machine.
+    Re-run the same case (same plan, then perturbed plans); a failure that never shows again is counted as an
+    unreproduced schedule anomaly (inconclusive), not a violation.  -> Failure | None"""
+    again = None
+    for t in range(6):
+        c2 = dict(c)
+        if t >= 2:
+            c2["plan"] = [c["plan"][0] + 1000 + t, 0.3, 3.0]
+        again, _r2 = check_case(c2)
+        if again is not None:
+            break
+    if again is None:
+        st.inconclusive += 1
+        st.hist["unreproduced-schedule-anomaly:" + f.kind] += 1
+        st.notes.append("unreproduced (0 of 6 re-runs): %s | %s" % (f.kind, f.detail[:300]))
+    return again
+
+
+def worker_prog(arg):
+    seed, n, plans, scratch = arg[:4]
+    from hypothesis import strategies as hs
+
+    _setup(scratch)
+    st = Stats()
+    seen_buckets = set()
+
+    def body(rnd):
+        case = cp.gen_case(rnd, _state["f3_mode"], _state["f4_mode"])
+        if case.pop("avoided_f3", None):
+            st.excluded_known["C06-F3"] += 1
+        if case.pop("avoided_f4", None):
+            st.excluded_known["C06-F4"] += 1
+        if case["view"] == "atdollar":
+            st.hist["prog:not-generated:env-prefix-inside-@$()"] += 1      # `@$($V='x' cmd)` does not compile; not a capture matter
+        m = cp.model(case)
+        classes = cp.op_classes(case["ops"])
+        paths = {c.split(":")[1][0] for c in classes if "@" not in c}
+        nontrivial = len(paths - set("fF")) >= 2
+        ai = "1" if case["pos"] in ("last", "mid") else "0"
+        labels = ["prog:view:" + case["view"], "prog:stage:" + case["stage"], "prog:pos:" + case["pos"],
+                  "prog:alias-prefix:%d" % len(case["envs"].get(ai, [])), "prog:other-prefix:%s" % bool([k for k in case["envs"] if k != ai]),
+                  "prog:inner-commands:%s" % cp.has_inner(case["ops"]), "prog:capture_always:%s" % case["capture_always"],
+                  "prog:bytes:" + ("0" if not m.out else "<=1024" if len(m.out) <= 1024 else "<=8192" if len(m.out) <= 8192 else "<=65536" if len(m.out) <= 65536 else ">64K")]
+        labels += ["prog:" + c for c in sorted(classes)]
+        if case["stage"] == "cb":
+            labels += ["prog:" + t for t in sorted(cp.transitions(case["ops"]))]
+        if m.f3:
+            labels.append("prog:shape:C06-F3")
+        if (cp.f4_shape(case) or 0) > 0:
+            labels.append("prog:shape:C06-F4")
+        if m.term:
+            labels.append("prog:documented-bypass:$[]")
+        for p in range(plans):
+            c = dict(case)
+            if p:
+                c["plan"] = [case["plan"][0] + p, [0.05, 0.3][p % 2], case["plan"][2]]
+            f, r = check_case(c)
+            if f is not None and f.finding is None:
+                f = _confirm(c, f, st)
+            st.case(json.dumps(c, sort_keys=True), bool(nontrivial), labels + ["prog:spec.cls:" + cl for cl in set(r.get("cls") or [])],
+                    sample=c if nontrivial and len(m.out) < 400 else None, max_per_label=1)
+            if f is not None:
+                if f.finding is None and f.bucket not in seen_buckets and len(seen_buckets) < 5:
+                    seen_buckets.add(f.bucket)
+                    small = minimize_prog(f.case, f.kind)
+                    if small is not f.case:
+                        f2, _r = check_case(small)
+                        if f2 is not None and f2.finding is None:
+                            f2.bucket = f.bucket
+                            f = f2
+                st.fail(f)
+                break
+
+    common.run_given(hs.randoms(use_true_random=False), body, seed, n)
+    _cleanup_leftovers(st)
+    best = {}
+    for f in st.failures:
+        b = best.get(f.bucket)
+        if b is None or len(json.dumps(f.case)) < len(json.dumps(b.case)):
+            best[f.bucket] = f
+    st.failures = list(best.values())
+    return st
+
+
 def worker(arg):
-    seed, n, plans, scratch = arg
+    if len(arg) > 4 and arg[4] == "prog":
+        return worker_prog(arg)
+    seed, n, plans, scratch = arg[:4]
     from hypothesis import strategies as hs
 
     _setup(scratch)
@@ -486,24 +930,7 @@ def worker(arg):
                 c["plan"] = [case["plan"][0] + p, [0.05, 0.3][p % 2], case["plan"][2]]
             f, r = check_case(c)
             if f is not None and f.finding is None:
-                # Only what reproduces is reported: the OS still owns the real interleaving, and the workers share
-                # the machine.  Re-run the same case (same plan, then perturbed plans); a failure that never
-                # shows again is counted as an unreproduced schedule anomaly (inconclusive), not a violation.
-                again = None
-                for t in range(6):
-                    c2 = dict(c)
-                    if t >= 2:
-                        c2["plan"] = [c["plan"][0] + 1000 + t, 0.3, 3.0]
-                    again, _r2 = check_case(c2)
-                    if again is not None:
-                        break
-                if again is None:
-                    st.inconclusive += 1
-                    st.hist["unreproduced-schedule-anomaly:" + f.kind] += 1
-                    st.notes.append("unreproduced (0 of 6 re-runs): %s | %s" % (f.kind, f.detail[:300]))
-                    f = None
-                else:
-                    f = again
+                f = _confirm(c, f, st)
             nontrivial = size > 1024 or len(case["stages"]) >= 2 or (case["chunk"] and case["chunk"] < size) or case["delay"] > 0
             labels = ["kind:" + case["kind"], "thread:%s" % case["thread"], "stages:%d" % len(case["stages"]),
                       "size:" + ("0" if size == 0 else "<=1024" if size <= 1024 else "<=65536" if size <= 65536 else ">64K")]
@@ -519,6 +946,7 @@ def worker(arg):
                 break
 
     common.run_given(hs.randoms(use_true_random=False), body, seed, n)
+    _cleanup_leftovers(st)
     if _state.get("avoided_f2"):
         st.excluded_known["C06-F2"] += _state["avoided_f2"]
     best = {}
@@ -532,6 +960,11 @@ def worker(arg):
 
 
 def _replay_case(case):
+    if case.get("fam") == "prog" and _state["f3_mode"] == "absent" and cp.model(case).f3:
+        # replays/C06/F3.json before its entry is in known_findings.json: see _setup
+        return None
+    if case.get("fam") == "prog" and _state["f4_mode"] == "absent" and (cp.f4_shape(case) or 0) > 0:
+        return None
     f, _r = check_case(case)
     return f
 
@@ -542,11 +975,26 @@ def main(run):
     nw = 16
     per = run.n(110, 1500)
     plans = run.n(2, 6)
-    common.pool_map(run, __name__, "worker", [(common.worker_seed(run.seed, w), per, plans, run.scratch) for w in range(nw)], hooks=True)
+    per_prog = run.n(80, 1200)
+    args = []
+    for w in range(nw):
+        args.append((common.worker_seed(run.seed, w), per, plans, run.scratch))
+        args.append((common.worker_seed(run.seed, 100 + w), per_prog, run.n(1, 2), run.scratch, "prog"))
+    common.pool_map(run, __name__, "worker", args, hooks=True)
+    if _state["f4_mode"] == "absent":
+        run.stats.notes.append("C06-F4 is not in known_findings.json: its shape (alias as last stage of $()/@$() that reads stdin after other "
+                               "work) is not generated and replays/C06/F4.json is skipped")
+    if _state["f3_mode"] == "absent":
+        run.stats.notes.append("C06-F3 is not in known_findings.json: its shape (text pending in the stdout argument when the alias "
+                               "runs a command) is not generated and replays/C06/F3.json is skipped")
     run.assumptions += [
         "schedules of xonsh's helper threads are perturbed by seeded delay injection at the guarded schedule points; they are sampled, not enumerated",
         "alternate-screen switches (ESC[?1049h etc.), which PopenThread deliberately passes to the terminal, are not generated",
         "text views may keep or strip each escape sequence as a whole, and may use any one consistent CR/CRLF reading; one-line output may lose its final newline",
+        "prog family: alias bodies that run commands are generated only with $THREAD_SUBPROCS=True (documented precondition) and only "
+        "write to stdout; one alias stage per pipeline (two concurrent threaded aliases are C07-F14's domain); `$[cmd]` inside an alias "
+        "is expected on the real terminal (docs/subprocess.rst); an alias that mixes stdout.write() with stdout.buffer.write() flushes in "
+        "between (plain Python discipline); `$VAR='v'` prefixes are not placed inside @$() (does not compile - not a capture matter)",
     ]
 
 
